@@ -21,15 +21,16 @@ Definition ratio_ceiling (qf mf : nat) (n d : num) : nres :=
   | e => e
   end.
 
+(** sexp_ratio_round with the F-C04-6 repair: |2r| is computed as r * (+-2) instead of negating 2r
+    in place with the wrapping sexp_fx_neg *)
 Definition ratio_round (qf mf : nat) (n d : num) : nres :=
   match num_quotient qf mf n d with
   | NV q =>
       if is_two d && is_odd q then NV (num_add q (if is_pos q then Fix 1 else Fix (-1)))
       else match num_remainder qf mf n d with
            | NV r =>
-               match num_mul mf r (Fix 2) with
+               match num_mul mf r (if is_neg r then Fix (-2) else Fix 2) with
                | Some r2 =>
-                   let r2 := if is_neg r2 then negate r2 else r2 in
                    if 0 <? num_compare r2 d
                    then NV (num_add q (if is_neg n then Fix (-1) else Fix 1))
                    else NV q
@@ -38,4 +39,19 @@ Definition ratio_round (qf mf : nat) (n d : num) : nres :=
            | e => e
            end
   | e => e
+  end.
+
+(** sexp_sub on two ratios (bignum.c:1449-1458, with the F-C04-5 repair: the numerator of the
+    subtrahend is negated by a multiplication, not by the wrapping sexp_fx_neg) *)
+Definition ratio_sub (fuel qf mf : nat) (na da nb db : num) : rres :=
+  omul mf nb (Fix (-1)) (fun nb' => ratio_add fuel qf mf na da nb' db).
+
+(** VM fast path SEXP_OP_MUL (vm.c:1821-1835): the product of two unboxed fixnums is a 128-bit signed
+    value (exact); outside the fixnum range the operation is redone by sexp_mul on a bignum *)
+Definition vm_mul (mf : nat) (a b : num) : option num :=
+  match a, b with
+  | Fix x, Fix y =>
+      let prod := x * y in
+      if fits_fix prod then Some (Fix prod) else num_mul mf (big_num (fixnum_to_bignum x)) b
+  | _, _ => num_mul mf a b
   end.
